@@ -458,8 +458,12 @@ pub fn gen_elem(rng: &mut Rng, uniq: &mut u32, allow_indef: bool) -> Elem {
             payload.truncate(len);
             while payload.len() < len {
                 payload.push(*rng.pick(&[
-                    b';', b',', b'\n', b'"', b'\'', b'#', 0x00, 0xff, 0x80, b'a', b' ', b'(', b')', b':',
+                    b';', b',', b'\n', b'"', b'\'', b'#', 0x00, 0xff, 0x80, b'a', b' ', b'(', b')', b':', b'\r',
                 ]));
+            }
+            if len > 0 && rng.chance(1, 4) {
+                let l = payload.len();
+                payload[l - 1] = *rng.pick(&[b'\r', b'\n', b';', b',', b' ']);
             }
             let pad = if rng.chance(1, 5) { rng.below(3) as u8 } else { 0 };
             Elem::Blk { payload: B(payload), pad }
@@ -482,7 +486,10 @@ pub fn gen_elem(rng: &mut Rng, uniq: &mut u32, allow_indef: bool) -> Elem {
             let mut payload: Vec<u8> = format!("i{}", uniq).into_bytes();
             let n = rng.usize_below(12);
             for _ in 0..n {
-                payload.push(*rng.pick(&[b';', b',', b'\n', b'"', 0xff, b'a', b' ']));
+                payload.push(*rng.pick(&[b';', b',', b'\n', b'"', 0xff, b'a', b' ', b'\r']));
+            }
+            if rng.chance(1, 3) {
+                payload.push(*rng.pick(&[b'\r', b'\n', b';', b' ']));
             }
             Elem::BlkIndef { payload: B(payload) }
         }
